@@ -203,8 +203,12 @@ def c18_d(ctx: Ctx):
     from .lints import nested_builder
     out += nested_builder(ctx, R)
     jl = {x for lp, _b in common.loop_over(f, f.params[0] if f.params else "jobs") for x in common.target_names(lp.target)}
-    own = [b for n in body_nodes(f) if isinstance(n, ast.expr) for pat in ("J.statepoint()", "J.sp()", "J.cached_statepoint") for b in [common.pmatch(pat, n)] if b and canon(b["J"]) in jl]
-    if own:
+    own = [b for n in body_nodes(f) if isinstance(n, ast.expr) for pat in ("J.statepoint()", "J.sp()") for b in [common.pmatch(pat, n)] if b and canon(b["J"]) in jl]
+    raw = [n for n in body_nodes(f) if isinstance(n, ast.Attribute) and n.attr in ("cached_statepoint", "_cached_statepoint") and canon(n.value) in jl]
+    if raw:
+        out.append(ctx.viol(R, f, raw[0], f"diff_jobs reads `{canon(raw[0])}`: for a handle opened with open_job(statepoint) that is the caller's own mapping, not the JSON-normalised state point "
+                            "(tuples are not lists there), so the flattening fails (TypeError: unhashable) or yields other pairs than for the same job opened by id", construct=f.qual + "|normalised-statepoint"))
+    elif own:
         out.append(ctx.ok(R, f, f.node, "diffs are computed from each job's own state point", nontrivial=False))
     return out
 
